@@ -99,7 +99,7 @@ def retarget(ctx):
 
 
 def conformance(ctx):
-    if ctx.op[0] not in ("add", "target", "eom_pulse"):
+    if ctx.op[0] not in ("add", "target", "eom_pulse", "enable_eom", "disable_eom"):  # EOM buffers decide the gap of pairs across a block edge
         return []
     return [(f"C10:refsched:{fp}", d) for fp, d in refsched.conformance(ctx) if "slot" in fp]
 
